@@ -40,4 +40,59 @@ vpv_cell!(#[kani::unwind(6)] c03_classify_or_other_self, "C03/classify_predicate
 vpv_cell!(#[kani::unwind(6)] c03_classify_or_other_other, "C03/classify_predicate/Or/other-other", (a: u8, o: u8, v: i64), { if (a & 0x7f) == (o & 0x7f) { return true; } let p = Predicate::Or(Box::new(leaf(2, a, o, v)), Box::new(leaf(2, a, o, v))); let ok = is_incons(&p, a) == false; std::mem::forget(p); ok });
 vpv_cell!(#[kani::unwind(6)] c03_classify_nested, "C03/classify_predicate/Or(const, Not(And(other, self)))", (a: u8, o: u8, v: i64), { if (a & 0x7f) == (o & 0x7f) { return true; } let p = Predicate::Or(Box::new(cmp(v)), Box::new(Predicate::Not(Box::new(Predicate::And(Box::new(cref(o)), Box::new(cref(a))))))); let ok = is_incons(&p, a); std::mem::forget(p); ok });
 vpv_cell!(#[kani::unwind(6)] c03_classify_no_alias, "C03/classify_predicate/no Kleene alias -> Consistent", (a: u8, v: i64), { let p = Predicate::And(Box::new(cref(a)), Box::new(cmp(v))); let ok = classify_predicate(&p, None) == PredicateClass::Consistent; std::mem::forget(p); ok });
-vpv_replay_table!(c03_classify_leaf_const, c03_classify_not_const, c03_classify_leaf_self, c03_classify_not_self, c03_classify_leaf_other, c03_classify_not_other, c03_classify_and_const_const, c03_classify_and_const_self, c03_classify_and_const_other, c03_classify_and_self_const, c03_classify_and_self_self, c03_classify_and_self_other, c03_classify_and_other_const, c03_classify_and_other_self, c03_classify_and_other_other, c03_classify_or_const_const, c03_classify_or_const_self, c03_classify_or_const_other, c03_classify_or_self_const, c03_classify_or_self_self, c03_classify_or_self_other, c03_classify_or_other_const, c03_classify_or_other_self, c03_classify_or_other_other, c03_classify_nested, c03_classify_no_alias);
+
+// ---- enumerate_with_filter + evaluate_deferred_predicate: BOUNDED STAND-IN (native enumeration).  These go through FxHashMap captures and the ZDD
+// iterator, outside both verifiers (DESIGN §4 C03).  For n <= 5 accumulated B events with attribute v in {0,1,2} (all 3^n assignments), every
+// comparison operator as the self-referencing filter `b.v OP previous(b).v`, and every cap 1..=2^n: the number of matches is
+// min(cap, number of non-empty subsets, in arrival order, whose consecutive members satisfy the filter); without a deferred filter it is
+// min(cap, 2^n - 1).  (Which subset a match stands for is not observable on MatchResult — only the count is checked.)
+#[cfg(vpv_replay)]
+pub fn c03_run(vals: &[i64], pred: Option<Predicate>) -> Run {
+    let mut kc = KleeneCapture::new();
+    for (i, v) in vals.iter().enumerate() {
+        let e = crate::event::Event::new("B").with_field("v", *v).with_field("i", i as i64);
+        kc.extend(Arc::new(e), Some(String::from("b")));
+    }
+    kc.deferred_predicate = pred;
+    Run { current_state: 0, stack: Vec::new(), captured: FxHashMap::default(), started_at: Instant::now(), deadline: None,
+          event_time_started_at: None, event_time_deadline: None, partition_key: None, invalidated: false,
+          pending_negations: Vec::new(), and_state: None, kleene_capture: Some(kc) }
+}
+#[cfg(vpv_replay)]
+pub fn c03_holds(op: CompareOp, later: i64, earlier: i64) -> bool {
+    match op { CompareOp::Eq => later == earlier, CompareOp::NotEq => later != earlier, CompareOp::Lt => later < earlier, CompareOp::Le => later <= earlier,
+               CompareOp::Gt => later > earlier, CompareOp::Ge => later >= earlier }
+}
+vpv_native!(c03_enumerate_with_filter, "C03/enumerate_with_filter+evaluate_deferred_predicate/number of matches == min(cap, admissible non-empty ordered subsets) (native enumeration: n <= 5 events, v in 0..=2, 6 operators + no filter, caps 1..=2^n)", {
+    let ops = [CompareOp::Eq, CompareOp::NotEq, CompareOp::Lt, CompareOp::Le, CompareOp::Gt, CompareOp::Ge];
+    let mut ok = true; let mut shown = 0;
+    for n in 0..=5usize {
+        let total = 3usize.pow(n as u32);
+        for code in 0..total {
+            let mut vals = Vec::new(); let mut c = code; for _ in 0..n { vals.push((c % 3) as i64); c /= 3; }
+            for opi in 0..=ops.len() {
+                // admissible subsets by brute force
+                let mut admissible = 0usize;
+                for mask in 1u32..(1u32 << n) {
+                    let idx: Vec<usize> = (0..n).filter(|i| mask >> i & 1 == 1).collect();
+                    let good = opi == ops.len() || idx.windows(2).all(|w| c03_holds(ops[opi], vals[w[1]], vals[w[0]]));
+                    if good { admissible += 1; }
+                }
+                for cap in 1..=(1usize << n) {
+                    let label = || format!("B values={:?} filter={} cap={}", vals, if opi == ops.len() { String::from("(none)") } else { format!("b.v {:?} previous b.v", ops[opi]) }, cap);
+                    let good = vpv_enum_try(label, || {
+                        let pred = if opi == ops.len() { None } else { Some(Predicate::CompareRef { field: String::from("v"), op: ops[opi], ref_alias: String::from("b"), ref_field: String::from("v") }) };
+                        let mut run = c03_run(&vals, pred);
+                        let res = enumerate_with_filter(&mut run, cap);
+                        let want = admissible.min(cap);
+                        if res.len() != want { println!("  got {} matches, expected min(cap, {} admissible subsets) = {}", res.len(), admissible, want); }
+                        res.len() == want
+                    });
+                    if !good { ok = false; shown += 1; if shown >= 3 { return false; } }
+                }
+            }
+        }
+    }
+    ok
+});
+vpv_replay_table!(c03_classify_leaf_const, c03_classify_not_const, c03_classify_leaf_self, c03_classify_not_self, c03_classify_leaf_other, c03_classify_not_other, c03_classify_and_const_const, c03_classify_and_const_self, c03_classify_and_const_other, c03_classify_and_self_const, c03_classify_and_self_self, c03_classify_and_self_other, c03_classify_and_other_const, c03_classify_and_other_self, c03_classify_and_other_other, c03_classify_or_const_const, c03_classify_or_const_self, c03_classify_or_const_other, c03_classify_or_self_const, c03_classify_or_self_self, c03_classify_or_self_other, c03_classify_or_other_const, c03_classify_or_other_self, c03_classify_or_other_other, c03_classify_nested, c03_classify_no_alias, c03_enumerate_with_filter);
